@@ -174,10 +174,14 @@ def shared_store_repo():
 class Hist:
     """A history built as real dulwich objects in a MemoryRepo (or any repo passed in)."""
 
-    def __init__(self, par, ts, mode, repo=None, salt=0):
+    def __init__(self, par, ts, mode, repo=None, salt=0, cuts=None):
+        """cuts: {commit: ("shallow",) | ("graft", [parents])} -- the commit objects keep the
+        parents of `par`, the repository is told to see other ones (shallow file / graft points);
+        self.par becomes the history as the repository's ParentsProvider presents it."""
         from dulwich.objects import Commit, Tree
         from dulwich.repo import MemoryRepo
         self.par, self.ts, self.mode = par, ts, mode
+        self.cuts = cuts or {}
         n = self.n = len(par)
         self.repo = repo if repo is not None else MemoryRepo()
         store = self.repo.object_store
@@ -203,6 +207,23 @@ class Hist:
                     raise RuntimeError("commit serialisation differs from the miner's")
             store.add_object(com)
             ids.append(com.id)
+        if self.cuts:
+            self.obj_par = par
+            eff = [tuple(p) for p in par]
+            shallow, grafts = set(), {}
+            for c, cut in self.cuts.items():
+                c = int(c)
+                if cut[0] == "shallow":
+                    shallow.add(ids[c - 1])
+                    eff[c - 1] = ()
+                else:
+                    grafts[ids[c - 1]] = [ids[p - 1] for p in cut[1]]
+                    eff[c - 1] = tuple(cut[1])
+            if shallow:
+                self.repo.update_shallow(shallow, None)
+            if grafts:
+                self.repo._add_graftpoints(grafts)
+            self.par = tuple(eff)
         self.inv = {x: i + 1 for i, x in enumerate(ids)}
         order = sorted(range(n), key=lambda i: ids[i])
         self.rank = [0] * n
@@ -216,8 +237,12 @@ class Hist:
         return [self.inv.get(s, -1) for s in shas]
 
     def record(self, tid, queries):
-        return {"tid": tid, "par": [list(p) for p in self.par], "ts": list(self.ts), "rank": list(self.rank),
-                "q": queries}
+        r = {"tid": tid, "par": [list(p) for p in self.par], "ts": list(self.ts), "rank": list(self.rank),
+             "q": queries}
+        if self.cuts:
+            r["cuts"] = {str(c): list(v) for c, v in self.cuts.items()}
+            r["obj_par"] = [list(p) for p in self.obj_par]
+        return r
 
 
 # --------------------------------------------------------------------------- queries on the real code
@@ -453,9 +478,15 @@ def run_dag(task):
     """task = dict(n, par, table ints, cases [(ts, clock)], plan, seed).  Runs every case in both
     tie-break modes where ties exist.  Returns counters, suspects (records for TLC) and samples."""
     n, par, plan, seed = task["n"], task["par"], task["plan"], task["seed"]
+    res = {"cases": 0, "queries": 0, "suspect_q": 0, "records": [], "nontrivial": [], "by_kind": {}, "tlc_cases": 0,
+           "first": task.get("first", True), "skipped": False}
+    import time
+    if task.get("deadline") and time.time() > task["deadline"]:
+        res["skipped"] = True
+        return res
+    res["tlc_cases"] = len(task["cases"])
     table = Table(n, task["table"])
     M = table.M
-    res = {"cases": 0, "queries": 0, "suspect_q": 0, "records": [], "nontrivial": [], "by_kind": {}}
     multi = [m for m in range(1, M + 1) if popcount(m) >= 2]
     allsets = list(range(1, M + 1))
     for ts, clock in task["cases"]:
@@ -471,10 +502,11 @@ def run_dag(task):
                 for b in range(1, n + 1):
                     qs.append(q_mb(h, a, [b]))
                     qs.append(q_ff(h, a, b))
-            ms = multi if plan["full"] else rng.sample(multi, min(plan["n_mbm"], len(multi)))
+            full_mb = plan.get("full_mb", plan["full"])
+            ms = multi if full_mb else rng.sample(multi, min(plan["n_mbm"], len(multi)))
             for dm in ms:
                 d = set_of(dm)
-                for a in (range(1, n + 1) if plan["full"] else [rng.randint(1, n)]):
+                for a in (range(1, n + 1) if full_mb else [rng.randint(1, n)]):
                     if rng.random() < 0.5:
                         rng.shuffle(d)
                     qs.append(q_mb(h, a, d))
